@@ -70,3 +70,17 @@ func H_C18_pure_bytes(which, nb int) {
 	vClose(q1, q2, 0, "bit-identical when called again (Q)")
 	vReach("end")
 }
+
+// the caller hands in a window of a longer slice (spare capacity behind it): the bits after the window must survive
+func H_C18_window(test, par, n, extra int) {
+	big := vBits(n + extra)
+	big0 := make([]bool, n+extra)
+	copy(big0, big)
+	x := big[:n]
+	vWatch()
+	c17Run(test, x, par)
+	for i := 0; i < n+extra; i++ {
+		vAssert(big[i] == big0[i], "memory of the caller (also beyond the window passed in) is left unmodified")
+	}
+	vReach("end")
+}
